@@ -118,7 +118,8 @@ class Stream:
             elif kind == 3:
                 I = gen_layered(r, nvars=r.range(2, 4), per_layer=2, dom_max=2, dominance=0)
             elif stores:
-                I = gen_layered(r, nvars=r.range(4, 6), per_layer=r.range(1, 3), dom_max=r.range(2, 3), dominance=r.choice([0, 1, 2]))
+                I = gen_layered(r, nvars=r.range(5, 7), per_layer=r.range(3, 5), dom_max=r.range(2, 3), dominance=r.choice([0, 0, 1, 2]),
+                                rub=r.choice([3, 3, 2, 0]), dead=r.chance(1, 3))
             else:
                 I = gen_layered(r, nvars=r.range(4, 6), per_layer=r.range(3, 5), dom_max=r.range(2, 3), dominance=0)
             H = I.hbase()
@@ -129,16 +130,28 @@ class Stream:
                 hv = H[k][b]
                 vstar = None if hv is None else v + hv
                 lbs = [IMIN]
-                if vstar is not None: lbs += [vstar - 2, vstar, vstar + 1]
+                if vstar is not None: lbs += [vstar - 2, vstar, vstar + 1] + (list(range(vstar - 12, vstar, 3)) if stores else [])
                 else: lbs += [0]
-                if stores and r.chance(1, 3):
-                    lines.append("RS")
+                if stores:
+                    # like the solvers: restricted then relaxed compilation of one sub-problem on fresh stores, then one more
+                    # sub-problem on the stores left behind (thresholds / dominance entries of the first one filter the second)
+                    for flv in flavours:
+                        if flv != 2 and I.notimp: continue
+                        for w in widths:
+                            for lb in lbs:
+                                ud = 1 if I.domkind == 1 else 0
+                                lines.append("RS")
+                                for rt in (root, roots[(roots.index(root) + 1) % len(roots)]):
+                                    for ct in (2, 1):
+                                        lines.append(mline(flv, ct, w, lb, 1, ud, 0, rt))
+                                        metas.append({"inst": i, "root": rt, "flv": flv, "ct": ct, "w": w, "lb": lb, "vstar": None})
+                    continue
                 for flv in flavours:
                     if flv != 2 and I.notimp: continue      # plain diagrams expand every state on every variable; long arcs are C15
                     for ct in types:
                         for w in widths:
                             for lb in (lbs if ct != 0 else lbs[:2]):
-                                uc, ud = (1, 1 if I.domkind == 1 else 0) if stores else (0, 0)
+                                uc, ud = (0, 0)
                                 lines.append(mline(flv, ct, w, lb, uc, ud, 0, root))
                                 metas.append({"inst": i, "root": root, "flv": flv, "ct": ct, "w": w, "lb": lb, "vstar": vstar})
                                 if with_viz:
